@@ -1,7 +1,7 @@
 """C19 - indent prefixes every line and preserves line structure."""
 from ..sym import sym_of
 from ..engine import AnchorMissing, loop_models, iter_chain
-from ..poly import poly, fact_nf
+from ..poly import poly, fact_nf, GT0, GE0, EQ0, NE0
 from ..paths import loop_system, PathView
 from ..describe import describe
 from ..idioms import blank_fact
@@ -65,9 +65,9 @@ def _check(prog, rep):
         site = site_of_block(body, tr.events[0][0]) if tr.events else body.span
         nfs = [fact_nf(f) for f in tr.facts if f[0][0] == "cmp"]
         first = None
-        if ("gt0", poly(idx)) in nfs:
+        if GT0(poly(idx)) in nfs:
             first = False
-        elif ("ge0", -poly(idx)) in nfs or ("eq0", poly(idx)) in nfs:
+        elif GE0(-poly(idx)) in nfs or EQ0(poly(idx)) in nfs:
             first = True
         blank = None
         for f in tr.facts:
